@@ -192,6 +192,49 @@ def note_scope_cases(rng, tier):
         yield {"id": f"note-{nsz}-{dsz}-{size}-{t % 4}{'g' if seg else 's'}", "lines": L, "meta": {"img": img}}
 
 
+def field_off(tbl, name):
+    o = 0
+    for n, w in tbl:
+        if n == name:
+            return o, w
+        o += w
+    raise KeyError(name)
+
+
+def wrap_cases(rng, tier):
+    """file ranges whose END wraps around 2^64 (2^32 in ELF32 fields never does after widening): offset inside
+    the file, size = 2^64 - offset + d.  A range test written as `offset + size > stream_size` accepts them and
+    the loader then asks for ~2^64 bytes (seeded change c01-segment-range-sum-wraps); the allocation-bound
+    clause of the property is what notices."""
+    n = 12 if tier == "quick" else 120
+    for i in range(n):
+        enc = "lsb" if i % 2 == 0 else "msb"
+        img = bytearray(elfspec.encode(elfspec.random_model(rng, 64, enc, nsec=rng.randint(2, 5), nseg=rng.randint(1, 3))))
+        eh = elfspec.unpack(elfspec.EHDR[64], img, 16, enc)
+        L = len(img)
+        seg_side = i % 3 != 2 and eh["e_phnum"] > 0
+        if seg_side:
+            base = eh["e_phoff"] + rng.randrange(eh["e_phnum"]) * eh["e_phentsize"]
+            tbl, fo, fs = elfspec.PHDR[64], "p_offset", "p_filesz"
+            o, w = field_off(tbl, "p_type"); img[base + o:base + o + w] = elfspec.put(1, w, enc)
+        elif eh["e_shnum"] > 1:
+            base = eh["e_shoff"] + rng.randrange(1, eh["e_shnum"]) * eh["e_shentsize"]
+            tbl, fo, fs = elfspec.SHDR[64], "sh_offset", "sh_size"
+            o, w = field_off(tbl, "sh_type"); img[base + o:base + o + w] = elfspec.put(1, w, enc)
+        else:
+            continue
+        if base + elfspec.SIZE(tbl) > L:
+            continue
+        off = rng.choice([1, 2, 64, L // 2, L - 1, L])
+        size = (1 << 64) - off + rng.choice([0, 0, 1, 8, L // 2])
+        o, w = field_off(tbl, fo); img[base + o:base + o + w] = elfspec.put(off, w, enc)
+        o, w = field_off(tbl, fs); img[base + o:base + o + w] = elfspec.put(size, w, enc)
+        img = bytes(img)
+        for lazy in (0, 1):
+            yield {"id": f"wrap{i}-{lazy}", "lines": [f"load {hx(img)} lazy={lazy} kind=str"] + inspect_lines(img, rng),
+                   "meta": {"img": img}}
+
+
 def gen_cases(rng, tier):
     n = 260 if tier == "quick" else 3000
     ex_small = [b for f, b in examples(20000)]
@@ -219,6 +262,7 @@ def gen_cases(rng, tier):
         lazy = rng.choice([0, 1]); kind = rng.choice(["str", "str", "file"])
         yield {"id": f"m{i}", "lines": [f"load {hx(img)} lazy={lazy} kind={kind}"] + inspect_lines(img, rng), "meta": {"img": img}}
     yield from note_scope_cases(rng, tier)
+    yield from wrap_cases(rng, tier)
     # F11 witness: a section covering the whole file
     m = elfspec.random_model(rng, 64, "lsb", nsec=2, nseg=0)
     img = bytearray(elfspec.encode(m))
